@@ -155,7 +155,7 @@ static void do_msg(vf_case *c) {
 	if (th) { /* SwiftEC is refused (error reported) for supersingular curves, p = 2 mod 3 and curves with a b != 0 */ if (!(ent == 2 && (ep_curve_is_super() || core_get()->mod18 % 3 == 2 || (ep_curve_opt_a() != RLC_ZERO && ep_curve_opt_b() != RLC_ZERO)))) vf_fail(NULL, "%s raised %d (len %zu)", EN[ent], th, len); goto done; }
 	check_valid(EN[ent], p, &G);
 	if (G.inf && !tiny) vf_fail(NULL, "%s: returned the identity", EN[ent]); /* on a ~1000-point curve the two images cancel with probability 2^-10: legitimate there, checked against the reference below */
-	vf_reseed(); CALL(q); ep_extract(&H, q); transitions++; if (th || !rpt_eq(&G, &H)) vf_fail(NULL, "%s: not deterministic", EN[ent]);
+	vf_reseed(); memset(q, 0xFF, sizeof(ep_st)); q->coord = BASIC; CALL(q); ep_extract(&H, q); transitions++; if (th || !rpt_eq(&G, &H)) vf_fail(NULL, "%s: not deterministic (second call into an output point that held other data)", EN[ent]);
 	/* input sensitivity: judged at shipped sizes only (on a 16-bit curve two messages collide with probability ~2^-10 per pair) */
 	if (len && !tiny) { msg[len - 1] ^= 1; CALL(q); ep_extract(&H, q); if (!th && rpt_eq(&G, &H)) vf_fail(NULL, "%s: last message bit ignored", EN[ent]); msg[len - 1] ^= 1; }
 	/* reference construction */
@@ -187,7 +187,7 @@ static void do_g2(vf_case *c) {
 	if (!ep2_extract(&G, p)) vf_fail(NULL, "%s: result not canonical / not normalised", EN[ent]);
 	else if (G.inf) vf_fail(NULL, "%s: returned the identity", EN[ent]);
 	else { if (!rpt2_on_curve(&RC2, &G)) vf_fail(NULL, "%s: result not on the twist", EN[ent]); else { rpt2_mul(&RC2, &T, &G, RN2); if (!T.inf) vf_fail(NULL, "%s: result not in the order-r subgroup", EN[ent]); } }
-	vf_reseed(); CALL2(q); ep2_extract(&H, q); if (th || !rpt2_eq(&G, &H)) vf_fail(NULL, "%s: not deterministic", EN[ent]);
+	vf_reseed(); memset(q, 0xFF, sizeof(ep2_st)); q->coord = BASIC; CALL2(q); ep2_extract(&H, q); if (th || !rpt2_eq(&G, &H)) vf_fail(NULL, "%s: not deterministic (second call into an output point that held other data)", EN[ent]);
 	if (len) { msg[len - 1] ^= 1; CALL2(q); ep2_extract(&H, q); if (!th && rpt2_eq(&G, &H)) vf_fail(NULL, "%s: last message bit ignored", EN[ent]); }
 	free(msg); rpt2_clear(&G); rpt2_clear(&H); rpt2_clear(&T);
 }
@@ -203,7 +203,8 @@ static void do_eb(vf_case *c) {
 	VF_TRY(th, eb_norm(p, p)); bpt G; G.inf = eb_is_infty(p); G.x = gf_from_fb(p->x); G.y = gf_from_fb(p->y);
 	if (G.inf) vf_fail(NULL, "eb_map: returned the identity"); else if (!bpt_on_curve(G)) vf_fail(NULL, "eb_map: result not on the curve");
 	else { bn_t r; bn_new(r); eb_curve_get_ord(r); mpz_t R; mpz_init(R); vf_bn_get(R, r); if (!bpt_mul(G, R).inf) vf_fail(NULL, "eb_map: result not in the order-r subgroup"); mpz_clear(R); }
-	VF_TRY(th, eb_map(q, msg, len)); if (th || eb_cmp(p, q) != RLC_EQ) vf_fail(NULL, "eb_map: not deterministic");
+	/* a function of the input bytes alone: the second call writes into a destination that held other data (all-ones digits) before */
+	memset(q, 0xFF, sizeof(eb_st)); q->coord = BASIC; VF_TRY(th, eb_map(q, msg, len)); if (th || eb_cmp(p, q) != RLC_EQ) vf_fail(NULL, "eb_map: not deterministic (the result depends on the previous content of the output point)");
 	if (len) { msg[len - 1] ^= 1; VF_TRY(th, eb_map(q, msg, len)); if (!th && eb_cmp(p, q) == RLC_EQ) vf_fail(NULL, "eb_map: last message bit ignored"); }
 	free(msg);
 }
